@@ -580,7 +580,20 @@ func hostileArg2(scheme string) ([]byte, string) {
 		valid = append(valid, []byte("http://x/y")...)
 		valid = append(valid, 0, 1, 0, 1, 'k', 0, 1, 'v')
 	}
-	switch k := scn(9); k {
+	switch k := scn(10); k {
+	case 8:
+		if scheme != "thrift" {
+			return valid, "valid"
+		}
+		// one of the 16-bit fields (pair count, key and value lengths) at a limit of the
+		// field or of the buffer
+		offs := []int{0, 2, 6, 10, 16}
+		off := offs[scn(len(offs))]
+		b := append([]byte(nil), valid...)
+		rest := len(b) - off - 2
+		v := []uint16{0xffff, 0xfffe, 0xfffd, 0x8000, 0x7fff, uint16(rest), uint16(rest + 1)}[scn(7)]
+		binary.BigEndian.PutUint16(b[off:], v)
+		return b, fmt.Sprintf("16-bit field at offset %d = %#x", off, v)
 	case 0:
 		return valid[:scn(len(valid)+1)], "truncated"
 	case 1:
@@ -638,6 +651,10 @@ func hostileArg2(scheme string) ([]byte, string) {
 func (w *World) pureCodecSamples() {
 	for i := 0; i < 3; i++ {
 		h := drawHeaders(fmt.Sprint("pure", i))
+		if scnChance(1, 6) {
+			// a value at the limit of its 16-bit length prefix
+			h["lim"] = str(65533+scn(3), "L")
+		}
 		var buf bytes.Buffer
 		if err := thrift.WriteHeaders(&buf, h); err != nil {
 			w.violate("C18", "pure-thrift-headers", "WriteHeaders(%s): %v", mapDesc(h), err)
